@@ -155,15 +155,6 @@ func (pg *Page) RenderTemplate(ctx context.Context, sym string, values map[strin
 		return "", err
 	}
 	tpl += pg.extra
-	if pg.err != nil {
-		derr := pg.Error()
-		logg.DebugCtxf(ctx, "prepending error", "err", pg.err, "display", derr)
-		if len(tpl) == 0 {
-			tpl = derr
-		} else {
-			tpl = fmt.Sprintf("%s\n%s", derr, tpl)
-		}
-	}
 	if pg.sizer != nil {
 		values, err = pg.sizer.GetAt(values, idx)
 		if err != nil {
@@ -184,7 +175,18 @@ func (pg *Page) RenderTemplate(ctx context.Context, sym string, values map[strin
 	if err != nil {
 		return "", err
 	}
-	return b.String(), err
+	r := b.String()
+	if pg.err != nil {
+		// the error text is data - it may quote client input - and must not be parsed as template source
+		derr := pg.Error()
+		logg.DebugCtxf(ctx, "prepending error", "err", pg.err, "display", derr)
+		if len(tpl) == 0 {
+			r = derr
+		} else {
+			r = fmt.Sprintf("%s\n%s", derr, r)
+		}
+	}
+	return r, nil
 }
 
 // Render renders the current mapped content and menu state against the template associated with the symbol.
